@@ -54,6 +54,9 @@ pub enum Step {
     Complete { ctx: Ctx },
     AddWifi { ctx: Ctx, n: u8 },
     WriteLabel { ctx: Ctx, n: u8 },
+    /// Write the whole ACL of the writer's fabric: the administrator entry plus `n` extra
+    /// View entries for other node ids.
+    WriteAcl { ctx: Ctx, n: u8 },
     RemoveFabric { ctx: Ctx, idx: u8 },
     /// Establish (or resume) a CASE session as admin A / B.
     Case { fab_b: bool },
@@ -85,6 +88,8 @@ pub struct DevDump {
     /// (fabric index, peer node id, hash of resumption id)
     pub resumption: Vec<(u8, u64, u64)>,
     pub window_open: bool,
+    /// BasicInformation::NodeLabel as held in RAM
+    pub label: String,
 }
 
 pub fn dump(matter: &Matter<'_>, state: &DeviceState) -> DevDump {
@@ -112,6 +117,7 @@ pub fn dump(matter: &Matter<'_>, state: &DeviceState) -> DevDump {
             ));
         }
         d.window_open = s.verif_pase().verif_state().0.is_some();
+        d.label = s.verif_basic_info_settings().node_label.as_str().to_string();
     });
     state.networks().access(|n| {
         let _ = n.networks(&mut |id| {
@@ -287,6 +293,7 @@ fn run_world_inner(p: &WorldParams, simkv: SimKv) -> WorldResult {
             let crypto_g = &crypto_g;
             let boot = &boot;
             let hub2 = hub.clone();
+            let hub_busy = hub.clone();
             let simkv2 = simkv.clone();
             let simkv3 = simkv.clone();
             let steps = &p.steps;
@@ -316,6 +323,27 @@ fn run_world_inner(p: &WorldParams, simkv: SimKv) -> WorldResult {
                         crypto: crypto_c,
                         dev_addr,
                         passcode: device::PASSCODE,
+                        busy_probe: Some(Box::new(move || {
+                            // unsecured status reports (opcode 0x40) sent by the device with
+                            // general code Busy (8)
+                            hub_busy.with_tap(|t| {
+                                t.iter()
+                                    .filter(|ev| ev.dgram.src == 1)
+                                    .filter(|ev| {
+                                        crate::sim::wire::peek(&ev.dgram.bytes)
+                                            .and_then(|i| {
+                                                let off = i.payload_off?;
+                                                (i.opcode == Some(0x40)
+                                                    && ev.dgram.bytes.len() >= off + 2
+                                                    && ev.dgram.bytes[off] == 8)
+                                                    .then_some(())
+                                            })
+                                            .is_some()
+                                    })
+                                    .count() as u64
+                            })
+                        })),
+                        last_case_was_busy: core::cell::Cell::new(false),
                     };
                     let mut i = start;
                     while i < steps.len() {
@@ -487,6 +515,106 @@ pub fn restart_dump(map: &KvMap, seed: u64) -> Option<DevDump> {
     v
 }
 
+/// Restart from `map` and report the boot outcome (None = panic).
+pub fn restart_boot(map: &KvMap, seed: u64) -> Option<Boot> {
+    let out: Rc<RefCell<Option<Boot>>> = Rc::new(RefCell::new(None));
+    let out2 = out.clone();
+    let map = map.clone();
+    let r = catch_unwind(AssertUnwindSafe(move || {
+        let saved_now = clock::now();
+        let crypto_d = node::crypto(Rng::new(subseed(seed, &[778])));
+        let md = node::new_matter();
+        let dstate = device::new_device_state();
+        let dbuffers = device::new_buffers();
+        let boot: RefCell<Option<Boot>> = RefCell::new(None);
+        let hub = NetHub::new(1, 2);
+        let simkv = SimKv::from_map(map, false);
+        let mut rng = Rng::new(5);
+        {
+            let md = &*md;
+            let dstate = &*dstate;
+            let dbuffers = &*dbuffers;
+            let boot = &boot;
+            let crypto_d = &crypto_d;
+            let ep = hub.endpoint(1);
+            let script: BoxFut = Box::pin(async move {
+                for _ in 0..200 {
+                    if boot.borrow().is_some() {
+                        break;
+                    }
+                    exec::sleep_ms(5).await;
+                }
+                exec::sleep_ms(50).await;
+            });
+            let dev: BoxFut = Box::pin(async move {
+                device::run_device(md, crypto_d, simkv, ep, dstate, dbuffers, boot, false).await;
+                core::future::pending::<()>().await;
+            });
+            let _ = exec::run(
+                &mut rng,
+                Limits {
+                    max_polls: 200_000,
+                    horizon: saved_now + 60 * clock::TICKS_PER_SEC,
+                    shuffle: false,
+                },
+                vec![script, dev],
+            );
+        }
+        *out2.borrow_mut() = boot.borrow().clone();
+    }));
+    if r.is_err() {
+        return None;
+    }
+    let v = out.borrow().clone();
+    v.or(Some(Boot::MatterStartupFailed(rs_matter::error::ErrorCode::Invalid)))
+}
+
+/// Boot a device from `map`, factory-reset it (Matter + Interaction Model) and return the
+/// keys left in the store.
+pub fn factory_reset_leftovers(map: &KvMap, seed: u64) -> Option<Vec<u16>> {
+    let out: Rc<RefCell<Option<Vec<u16>>>> = Rc::new(RefCell::new(None));
+    let out2 = out.clone();
+    let map = map.clone();
+    let r = catch_unwind(AssertUnwindSafe(move || {
+        let crypto_d = node::crypto(Rng::new(subseed(seed, &[779])));
+        let md = node::new_matter();
+        let dstate = device::new_device_state();
+        let dbuffers = device::new_buffers();
+        let simkv = SimKv::from_map(map, false);
+        let mut rng = Rng::new(6);
+        let saved_now = clock::now();
+        let done: RefCell<bool> = RefCell::new(false);
+        {
+            let md = &*md;
+            let dstate = &*dstate;
+            let dbuffers = &*dbuffers;
+            let crypto_d = &crypto_d;
+            let simkv2 = simkv.clone();
+            let done = &done;
+            let script: BoxFut = Box::pin(async move {
+                *done.borrow_mut() = device::factory_reset(md, crypto_d, simkv2, dstate, dbuffers).await;
+            });
+            let _ = exec::run(
+                &mut rng,
+                Limits {
+                    max_polls: 200_000,
+                    horizon: saved_now + 60 * clock::TICKS_PER_SEC,
+                    shuffle: false,
+                },
+                vec![script],
+            );
+        }
+        if *done.borrow() {
+            *out2.borrow_mut() = Some(simkv.map().keys().copied().collect());
+        }
+    }));
+    if r.is_err() {
+        return None;
+    }
+    let v = out.borrow().clone();
+    v
+}
+
 #[allow(clippy::too_many_arguments)]
 async fn do_step<C: Crypto, G: Crypto>(
     ctl: &Ctl<'_, C>,
@@ -607,6 +735,24 @@ async fn do_step<C: Crypto, G: Crypto>(
                 cst.borrow_mut().label_n = *n;
                 // BasicInformation (0x28) NodeLabel (5)
                 ctl.write_attr(v, 0, 0x28, 5, &label.as_str()).await
+            }
+            None => no_ctx,
+        },
+        Step::WriteAcl { ctx, n } => match via(*ctx) {
+            Some(v) => {
+                use rs_matter::acl::{AclEntry, AuthMode};
+                use rs_matter::dm::Privilege;
+                let mut entries: Vec<AclEntry> = Vec::new();
+                let mut admin = AclEntry::new(None, Privilege::ADMIN, AuthMode::Case);
+                let _ = admin.add_subject(ADMIN_A);
+                entries.push(admin);
+                for k in 0..=*n {
+                    let mut e = AclEntry::new(None, Privilege::VIEW, AuthMode::Case);
+                    let _ = e.add_subject(0x5000 + k as u64);
+                    entries.push(e);
+                }
+                // AccessControl (0x1F) ACL (0)
+                ctl.write_attr(v, 0, 0x1F, 0, &entries.as_slice()).await
             }
             None => no_ctx,
         },
